@@ -76,6 +76,19 @@ pub assume_specification<T, E, F: FnOnce(&E)>[ Result::<T, E>::inspect_err ](res
 pub assume_specification<A: std::alloc::Allocator>[ <Vec<u8, A> as std::io::Write>::write_all ](v: &mut Vec<u8, A>, buf: &[u8]) -> (r: std::io::Result<()>)
     ensures r is Ok, final(v)@ == old(v)@ + buf@;
 
+/// R23 SHIM for `slice.chunks(n)` (not used by the code as it is): pieces of at most n bytes whose concatenation is the slice
+pub open spec fn concat_chunks(c: Seq<&[u8]>) -> Seq<u8> decreases c.len() { if c.len() == 0 { Seq::empty() } else { concat_chunks(c.drop_last()) + c.last()@ } }
+pub trait VChunks: vstd::view::View<V = Seq<u8>> {
+    fn vchunks(&self, n: usize) -> (r: Vec<&[u8]>)
+        requires n > 0,
+        ensures concat_chunks(r@) == self@, forall|i: int| 0 <= i < r@.len() ==> 0 < (#[trigger] r@[i])@.len() <= n,
+            self@.len() > n ==> r@.len() >= 2;
+}
+impl VChunks for [u8] {
+    #[verifier::external_body]
+    fn vchunks(&self, n: usize) -> (r: Vec<&[u8]>)
+    { self.chunks(n).collect() }
+}
 pub mod shims {
     use super::*;
     /// SHIM (R4): the fn-pointer alias FormatFunction
@@ -228,6 +241,7 @@ pub mod state_handle {
     //@   ret r
     //@   props C15
     //@   rule R3 *
+    //@   rule R23 *
     //@   req[plain_write.async.pre.perm] forall|m: Seq<u8>| #[trigger] send_ok(m) <==> (self is Async && m == buffer@ && !is_control(m))
     //@   req[plain_write.async.pre.arm] self is Async
     //@   ens[plain_write.async.post] r is Ok ==> r->Ok_0 == buffer@.len()
